@@ -73,16 +73,15 @@ func (c *Cursor) Last() (key []byte, value []byte) {
 	c.last()
 
 	// If this is an empty page (calling Delete may result in empty pages)
-	// we call prev to find the last page that is not empty
-	for len(c.stack) > 1 && c.stack[len(c.stack)-1].count() == 0 {
-		c.prev()
+	// we call prev to find the last page that is not empty. prev skips
+	// over empty pages and returns nil if there is no element at all.
+	var k, v []byte
+	var flags uint32
+	if c.stack[len(c.stack)-1].count() == 0 {
+		k, v, flags = c.prev()
+	} else {
+		k, v, flags = c.keyValue()
 	}
-
-	if len(c.stack) == 0 {
-		return nil, nil
-	}
-
-	k, v, flags := c.keyValue()
 	if (flags & uint32(common.BucketLeafFlag)) != 0 {
 		return k, nil
 	}
@@ -228,6 +227,11 @@ func (c *Cursor) next() (key []byte, value []byte, flags uint32) {
 		// If we've hit the root page then stop and return. This will leave the
 		// cursor on the last element of the last page.
 		if i == -1 {
+			// If we were moved onto trailing empty pages on the way, step
+			// back to the last element.
+			if len(c.stack) > 0 && c.stack[len(c.stack)-1].count() == 0 {
+				c.moveToPrev()
+			}
 			return nil, nil, 0
 		}
 
@@ -249,34 +253,50 @@ func (c *Cursor) next() (key []byte, value []byte, flags uint32) {
 // prev moves the cursor to the previous item in the bucket and returns its key and value.
 // If the cursor is at the beginning of the bucket then a nil key and value are returned.
 func (c *Cursor) prev() (key []byte, value []byte, flags uint32) {
-	// Attempt to move back one element until we're successful.
-	// Move up the stack as we hit the beginning of each page in our stack.
-	for i := len(c.stack) - 1; i >= 0; i-- {
-		elem := &c.stack[i]
-		if elem.index > 0 {
-			elem.index--
-			break
-		}
+	if !c.moveToPrev() {
 		// If we've hit the beginning, we should stop moving the cursor,
 		// and stay at the first element, so that users can continue to
 		// iterate over the elements in reverse direction by calling `Next`.
 		// We should return nil in such case.
 		// Refer to https://github.com/etcd-io/bbolt/issues/733
-		if len(c.stack) == 1 {
+		if len(c.stack) > 0 {
 			c.first()
-			return nil, nil, 0
 		}
-		c.stack = c.stack[:i]
-	}
-
-	// If we've hit the end then return nil.
-	if len(c.stack) == 0 {
 		return nil, nil, 0
 	}
-
-	// Move down the stack to find the last element of the last leaf under this branch.
-	c.last()
 	return c.keyValue()
+}
+
+// moveToPrev moves the cursor to the previous leaf element, skipping empty
+// pages (calling Delete may result in empty pages). It returns false if there
+// is no previous element; the cursor position is unspecified in that case.
+func (c *Cursor) moveToPrev() bool {
+	for {
+		// Attempt to move back one element until we're successful.
+		// Move up the stack as we hit the beginning of each page in our stack.
+		var i int
+		for i = len(c.stack) - 1; i >= 0; i-- {
+			elem := &c.stack[i]
+			if elem.index > 0 {
+				elem.index--
+				break
+			}
+		}
+		if i == -1 {
+			return false
+		}
+
+		// Otherwise start from where we left off in the stack and find the
+		// last element of the last leaf under this branch.
+		c.stack = c.stack[:i+1]
+		c.last()
+
+		// If this is an empty page then restart and keep moving backwards.
+		if c.stack[len(c.stack)-1].count() == 0 {
+			continue
+		}
+		return true
+	}
 }
 
 // search recursively performs a binary search against a given page/node until it finds a given key.
